@@ -184,7 +184,7 @@ func dump(v any) any {
 func mdMap(md metadata.MD) map[string][]string {
 	out := map[string][]string{}
 	for k, v := range md {
-		if k == idKey || k == "content-type" || k == "user-agent" || k == ":authority" || k == "grpc-accept-encoding" {
+		if k == idKey || k == "x-caller" || k == "content-type" || k == "user-agent" || k == ":authority" || k == "grpc-accept-encoding" {
 			continue
 		}
 		out[k] = v
@@ -408,7 +408,11 @@ func (gs *grpcState) exec(c *command, obs *observation, id string) bool {
 		return true
 	}
 	endpoint := ep.Call(nil)[0].Interface().(goa.Endpoint)
-	res, err := endpoint(context.WithValue(context.Background(), stateKey, id), payload)
+	cctx := context.WithValue(context.Background(), stateKey, id)
+	if c.CallerMD {
+		cctx = metadata.AppendToOutgoingContext(cctx, "x-caller", "harness")
+	}
+	res, err := endpoint(cctx, payload)
 	if err != nil {
 		ei := &errInfo{GoType: fmt.Sprintf("%T", err), Message: err.Error()}
 		if n, ok := err.(goa.GoaErrorNamer); ok {
